@@ -948,6 +948,8 @@ func ruleScan(w *core.World, r *core.Report) {
 				if isAppend(in) {
 					has = true
 				}
+			}
+			for _, in := range core.Instrs(g) { // the size may be read in a helper written for the scan
 				if c, isC := in.(*ssa.Call); isC && c.Call.IsInvoke() && c.Call.Method.Name() == "Size" && strings.HasSuffix(c.Call.Value.Type().String(), "FileInfo") {
 					scans = true
 				}
